@@ -25,7 +25,7 @@ import time
 
 VERIF = os.path.dirname(os.path.abspath(__file__))
 REPO = os.environ.get("VERIF_REPO", "/repo")
-BUILD = os.path.join(VERIF, ".build")
+BUILD = os.environ.get("VERIF_BUILD_DIR") or os.path.join(VERIF, ".build")
 STUB = os.path.join(BUILD, "stub")
 LOGS = os.path.join(BUILD, "logs")
 CHECKS = json.load(open(os.path.join(VERIF, "checks.json")))
